@@ -60,6 +60,20 @@ def run(ctx):
             ctx.agree_exact("subspace_vector", v, [int(x) for x in m.call("subspace_vector", n, k)], c2)
             v3 = s.subspace_vector(k, size=n + 2).numpy().astype(int).tolist()
             ctx.require("subspace_vector size=", v3 == bigendian(n + 2, k), c2)
+    # ---- the FULL generated space at large sizes (rows sampled): generate_hilbert_space itself, not only subspace_vector
+    sbig = PositiveWaveFunction(3, gpu=False)
+    for n in ([13, 16, 17, 20] if ctx.thorough else [14, 17]):
+        c2 = {"fn": "generate_hilbert_space (large)", "n": n}
+        ctx.case(c2)
+        ok, space = ctx.call("generate_hilbert_space large", c2, sbig.generate_hilbert_space, n)
+        if ok:
+            ctx.require("large space has 2^n rows of n sites", tuple(space.shape) == (2 ** n, n), c2, list(space.shape))
+            ks = [0, 1, 2 ** n - 1, 2 ** (n - 1), 2 ** (n - 1) - 1, 2 ** 15 + 5 if n > 15 else 5] + [int(x) for x in rng.integers(0, 2 ** n, size=40)]
+            ks = [k for k in ks if k < 2 ** n]
+            rows = space[ks].numpy().astype(int).tolist()
+            ctx.require("large space: row k == big-endian expansion of k", rows == [bigendian(n, k) for k in ks], c2,
+                        [k for k, r in zip(ks, rows) if r != bigendian(n, k)][:5])
+            del space
     # ---- large sizes: sampled rows only
     s = PositiveWaveFunction(3, gpu=False)
     for n in ([14, 17, 20] if ctx.thorough else [15, 20]):
@@ -174,7 +188,10 @@ def run(ctx):
             bases[:] = "Z"
         if t % 4 == 1:
             bases[:, 0] = "X"
-        samples = torch.tensor(rng.integers(0, 2, size=(N, n)) + np.arange(N)[:, None] * 2.0, dtype=torch.double)  # distinct rows
+        if t % 2:
+            samples = torch.tensor(rng.integers(0, 2, size=(N, n)) + np.arange(N)[:, None] * 2.0, dtype=torch.double)  # distinct rows
+        else:
+            samples = torch.tensor(rng.integers(0, 2, size=(N, n)), dtype=torch.double)   # genuine 0/1 rows: repeats, unsorted
         c2 = {"fn": "extract_refbasis_samples", "bases": ["".join(r) for r in bases], "N": N}
         ctx.case(c2, nontrivial=bool((bases != "Z").any() and (bases == "Z").all(1).any()))
         ok, z = ctx.call("extract_refbasis_samples", c2, extract_refbasis_samples, samples, bases)
@@ -199,10 +216,22 @@ def run(ctx):
         psi = rng.normal(size=(2 ** n, 2))
         allb = rng.choice(alphabet, size=(int(rng.integers(1, 4)), n))
         f1, f2, f3, f4 = [os.path.join(d, "f%d_%d.txt" % (t, i)) for i in range(4)]
-        np.savetxt(f1, samp, fmt="%d")
+        np.savetxt(f1, samp, fmt=["%d", "%.1f", "%.18e", "%g"][t % 4])        # integer and float notations of the same 0/1 samples
         np.savetxt(f2, psi, fmt="%.18e")
+        if t % 3 == 2:                                                       # multi-character basis names (dictionary keys are arbitrary strings)
+            names = {"X": "Rx", "Y": "Y", "Z": "Z", "H": "H2"}
+            bases = np.array([[names[ch] for ch in row] for row in bases])
         np.savetxt(f3, bases, fmt="%s")
         np.savetxt(f4, np.array(["".join(r) for r in allb]), fmt="%s")
+        f5 = os.path.join(d, "f%d_joined.txt" % t)                               # one joined string per sample row, e.g. "XZ"
+        joined = np.array(["".join(r) for r in bases])
+        np.savetxt(f5, joined, fmt="%s")
+        cj = {"fn": "load_data", "N": N, "n": n, "tr_bases": "one joined string per row"}
+        ctx.case(cj)
+        ok, outj = ctx.call("load_data (joined basis rows)", cj, load_data, f1, None, f5, None)
+        if ok:
+            ctx.require("joined basis rows as written", len(outj) == 2 and [str(x) for x in np.atleast_1d(outj[1])] == joined.tolist(), cj,
+                        [str(x) for x in np.atleast_1d(outj[1])] if len(outj) == 2 else len(outj))
         for mask in range(8):                                   # which optional files are passed
             use_psi, use_tb, use_ab = bool(mask & 1), bool(mask & 2), bool(mask & 4)
             c2 = {"fn": "load_data", "N": N, "n": n, "psi": use_psi, "tr_bases": use_tb, "bases": use_ab}
